@@ -144,6 +144,27 @@ pub fn generate(property: &str, seed: u64, tier: Tier) -> Plan {
         };
         steps.push(s);
     }
+    if property == "C03" {
+        // re-keying paths handle decrypted material too: a folder description,
+        // then a cipher change / folder password change / compaction on the
+        // same device, then a sync so the result also crosses the wire.
+        // Spliced in from an independent stream (the rest of the plan of a
+        // seed is unchanged).
+        let mut fr = Rng::new(seed).fork("netw.c03.rekey");
+        if fr.chance(3, 4) && steps.len() > 4 {
+            let d = fr.below(n_dev);
+            let fslot = *fr.pick(&[0u64, 0, 4, 4, 5]);
+            let a = 2 + fr.below(steps.len() as u64 - 3) as usize;
+            let rekey = match fr.below(4) {
+                0 | 1 => json!({"op":"chcipher","dev":d,"cipher":1,"kdf":fr.below(2),"push":true}),
+                2 => json!({"op":"chpw_folder","dev":d,"fslot":fslot,"val":val + 500,"push":true}),
+                _ => json!({"op":"compact","dev":d,"fslot":fslot,"push":true}),
+            };
+            steps.insert(a, json!({"op":"sync","dev":d}));
+            steps.insert(a, rekey);
+            steps.insert(a, json!({"op":"fdesc","dev":d,"fslot":fslot,"val":val + 501}));
+        }
+    }
     steps.push(json!({"op":"quiesce","pin":true,"order":r.next_u64() % 1000}));
     let skews: Vec<i64> = (0..n_dev)
         .map(|_| if skew { (r.below(7) as i64 - 3) * 400_000_000 } else { 0 })
@@ -196,6 +217,48 @@ impl NetWorld {
             self.devices[i].bridge = Some(b);
         }
         Ok(())
+    }
+
+    /// What `NetworkAccount` does after a history rewrite (compaction, folder
+    /// password change, cipher change): push the rewritten identity and folder
+    /// logs to the server with `update_account` (force update).
+    pub async fn push_rewrite(&mut self, i: usize, rec: &mut Recorder) -> String {
+        use sos_core::events::EventLog;
+        use sos_protocol::SyncClient;
+        use sos_sync::{StorageEventLogs, UpdateSet};
+        if let Err(e) = self.ensure_bridge(i).await {
+            return format!("err:{e}");
+        }
+        let client = self.devices[i].bridge.as_ref().unwrap().client.clone();
+        let set = {
+            let a = self.devices[i].dev.lock().await;
+            let mut set = UpdateSet::default();
+            if let Ok(l) = a.identity_log().await {
+                let l = l.read().await;
+                set.identity = l.diff_unchecked().await.ok();
+            }
+            if let Ok(folders) = a.folder_details().await {
+                for f in folders {
+                    if f.flags().is_sync_disabled() {
+                        continue;
+                    }
+                    if let Ok(l) = a.folder_log(f.id()).await {
+                        let l = l.read().await;
+                        if let Ok(d) = l.diff_unchecked().await {
+                            set.folders.insert(*f.id(), d);
+                        }
+                    }
+                }
+            }
+            set
+        };
+        match client.update_account(set).await {
+            Ok(()) => {
+                rec.stats.probe("rewrite_pushed_with_force_update");
+                "ok".into()
+            }
+            Err(e) => format!("err:{}", short_err(&e.to_string())),
+        }
     }
 
     /// One sequential sync of device `i`. Returns outcome class.
@@ -513,9 +576,13 @@ pub async fn execute(plan: Plan, dir: &Path) -> RunOutcome {
                 crate::interpose::clock_set_offset(world.devices[di].skew_ns);
                 let c = world.devices[di].dev.exec(s, &mut rec, 0).await;
                 crate::interpose::clock_set_offset(0);
-                if matches!(opn.as_str(), "compact" | "chpw_folder") && c == "ok" {
+                if matches!(opn.as_str(), "compact" | "chpw_folder" | "chcipher") && c == "ok" {
                     rec.stats.probe("history_rewrite");
                     world.devices[di].own.rewritten = true;
+                    if jbool(s, "push") && world.devices[di].online.load(SeqCst) {
+                        let p = world.push_rewrite(di, &mut rec).await;
+                        rec.observe(&format!("push_rewrite {p}"));
+                    }
                 }
                 no::record_own_commits(&mut world.devices[di], before).await;
                 c
